@@ -296,6 +296,22 @@ def execute(ctx, case):
             other = [b for (src, c_, b) in sess.bs_log if src is s]
             same = len(other) == len(samples) and all(np.array_equal(a.pos, b.pos) and np.array_equal(a.neg, b.neg) for a, b in zip(samples, other))
             C(not same, "a different seed produced identical bootstrap samples", "boot-seed-sensitive")
+    # ---- documented defaults ------------------------------------------------------------------------------------
+    if case["_seed"] % 24 == 3 and mname in ("fnr", "tpr_alias", "thr", "vec_callable", "scalar_callable") and len(pos) + len(neg) <= 60:
+        # leaving alpha / config out means alpha=0.05 and BootstrapConfig(1000, "bca", "dynamic", None, False, None), as documented
+        explicit = BootstrapConfig(nb_samples=1000, bootstrap_method="bca", sampling_method="dynamic", stratified_sampling=None, smoothing=False, ratio=None)
+        C(BootstrapConfig() == explicit, "BootstrapConfig() is not the documented default configuration", "boot-default-config", got=str(BootstrapConfig()))
+        np.random.seed(case["_seed"])
+        d_omit = s.bootstrap_ci(metric, **kw)
+        np.random.seed(case["_seed"])
+        d_expl = s.bootstrap_ci(metric, alpha=0.05, config=explicit, **kw)
+        C(np.array_equal(np.asarray(d_omit), np.asarray(d_expl), equal_nan=True), "bootstrap_ci with alpha/config left out differs from the documented defaults spelled out", "boot-default-ci")
+        np.random.seed(case["_seed"])
+        b_omit = s.bootstrap_sample()
+        np.random.seed(case["_seed"])
+        b_expl = s.bootstrap_sample(explicit)
+        C(np.array_equal(b_omit.pos, b_expl.pos) and np.array_equal(b_omit.neg, b_expl.neg) and b_omit.nb_easy_pos == b_expl.nb_easy_pos and b_omit.nb_easy_neg == b_expl.nb_easy_neg,
+          "bootstrap_sample() without a configuration differs from the documented default configuration", "boot-default-sample")
     sess.bs_log.clear()
     sess.bci_log.clear()
     sess.sig_counts[("case",) + sig] += 1
